@@ -26,7 +26,9 @@ func (c *checkDef) Owns(prop string) bool {
 	return false
 }
 
-func racePackages() []string { return []string{"./cache", "./utils/event", "./proxy", "./proxy/certs"} }
+func racePackages() []string {
+	return []string{"./cache", "./utils/event", "./proxy", "./proxy/certs", "./webserver/auth"}
+}
 
 
 var commonAssumptions = []string{
@@ -536,6 +538,7 @@ func checkC20() *checkDef {
 				{Pkg: "./webserver/api", Scenario: "api/login", Params: map[string]any{}, Workers: 1},
 				{Pkg: "./webserver/api", Scenario: "api/sessions", Params: map[string]any{"depth": d}},
 				{Pkg: "./utils/phc", Scenario: "phc/enum", Params: map[string]any{}, Workers: 8},
+				{Pkg: "./webserver/auth", Scenario: "auth/sched", Params: map[string]any{}, K: 2, E: 1, Horizon: 3000, Workers: 4},
 				{Pkg: "./webserver/middleware", Scenario: "middleware/harden", Params: map[string]any{}, Workers: 1},
 			}
 		},
@@ -657,6 +660,8 @@ func checkC15() *checkDef {
 				{Pkg: "./proxy", Scenario: "proxy/sched", Params: proxyRaceScenarios(), K: k, E: 1, F: 1, Horizon: 8000, Race: true},
 				// certificate issuance: concurrent first requests for one host and for different hosts
 				{Pkg: "./proxy/certs", Scenario: "certs/sched", Params: map[string]any{}, K: k, E: 0, Horizon: 3000, Race: true, Workers: 4},
+				// dashboard sessions: requests with one cookie, logins, logouts and the session GC pass
+				{Pkg: "./webserver/auth", Scenario: "auth/sched", Params: map[string]any{}, K: k + 1, E: 1, Horizon: 3000, Race: true, Workers: 4},
 			}
 		},
 	}
